@@ -25,6 +25,9 @@ type concFunc struct {
 	calls  map[string]bool
 	chops  [][2]string // (channel field, mode)
 	gos    []string
+	// channels sent to inside a select that has a default clause (cannot block)
+	nbsends []string
+	gocalls map[string]bool // callees of go statements (they run on another goroutine)
 }
 
 type concPkg struct {
@@ -67,10 +70,12 @@ func (p *concPkg) resolve(e ast.Expr, env map[string]string) string {
 }
 
 func (p *concPkg) analyse(name string, body *ast.BlockStmt, env map[string]string) {
-	cf := &concFunc{name: name, fields: map[string]bool{}, calls: map[string]bool{}}
+	cf := &concFunc{name: name, fields: map[string]bool{}, calls: map[string]bool{}, gocalls: map[string]bool{}}
 	p.funcs[name] = cf
 	nclos := 0
 	inSelect := map[ast.Node]bool{}
+	inSelectDefault := map[ast.Node]bool{}
+	goCall := map[ast.Node]bool{}
 	var visit func(n ast.Node) bool
 	visit = func(n ast.Node) bool {
 		switch x := n.(type) {
@@ -80,15 +85,27 @@ func (p *concPkg) analyse(name string, body *ast.BlockStmt, env map[string]strin
 			cf.calls[fmt.Sprintf("%s$%d", name, nclos)+"?closure"] = true
 			return false
 		case *ast.SelectStmt:
+			hasDefault := false
+			for _, c := range x.Body.List {
+				if cc, ok := c.(*ast.CommClause); ok && cc.Comm == nil {
+					hasDefault = true
+				}
+			}
 			for _, c := range x.Body.List {
 				if cc, ok := c.(*ast.CommClause); ok && cc.Comm != nil {
 					inSelect[cc.Comm] = true
+					if hasDefault {
+						inSelectDefault[cc.Comm] = true
+					}
 				}
 			}
 		case *ast.SendStmt:
 			mode := "send"
 			if inSelect[x] {
 				mode = "send-select"
+			}
+			if inSelectDefault[x] {
+				cf.nbsends = append(cf.nbsends, p.chanName(x.Chan, env))
 			}
 			cf.chops = append(cf.chops, [2]string{p.chanName(x.Chan, env), mode})
 		case *ast.UnaryExpr:
@@ -101,11 +118,16 @@ func (p *concPkg) analyse(name string, body *ast.BlockStmt, env map[string]strin
 			}
 		case *ast.GoStmt:
 			cf.gos = append(cf.gos, p.callName(x.Call, env))
+			goCall[x.Call] = true
 		case *ast.CallExpr:
 			if id, ok := x.Fun.(*ast.Ident); ok && id.Name == "close" && len(x.Args) == 1 {
 				cf.chops = append(cf.chops, [2]string{p.chanName(x.Args[0], env), "close"})
 			}
-			cf.calls[p.callName(x, env)] = true
+			if goCall[x] {
+				cf.gocalls[p.callName(x, env)] = true
+			} else {
+				cf.calls[p.callName(x, env)] = true
+			}
 		case *ast.SelectorExpr:
 			t := p.resolve(x.X, env)
 			if t != "" {
@@ -355,8 +377,119 @@ func genConc(root, outdir string) {
 			rows = append(rows, fmt.Sprintf("  (%s, %s)", coqStr(n), coqStr(g)))
 		}
 	}
-	o.p("Definition go_stmts : list (string * string) := [\n%s\n].", strings.Join(rows, ";\n"))
+	o.p("Definition go_stmts : list (string * string) := [\n%s\n].\n", strings.Join(rows, ";\n"))
+	o.p("(* every channel SEND the event-loop goroutine can execute inside package pfcp (PfcpServer.main and everything it calls,")
+	o.p("   go statements excluded): (function, channel, \"nonblocking\" = inside a select with a default clause | \"blocking\") *)")
+	rows = nil
+	{
+		seen := map[string]bool{}
+		var walk func(n string)
+		walk = func(n string) {
+			if seen[n] {
+				return
+			}
+			seen[n] = true
+			cf := p.funcs[n]
+			if cf == nil {
+				return
+			}
+			nb := map[string]int{}
+			for _, c := range cf.nbsends {
+				nb[c]++
+			}
+			for _, c := range cf.chops {
+				if c[1] == "send" || c[1] == "send-select" {
+					m := "blocking"
+					if c[1] == "send-select" && nb[c[0]] > 0 {
+						nb[c[0]]--
+						m = "nonblocking"
+					}
+					rows = append(rows, fmt.Sprintf("  (%s, %s, %s)", coqStr(n), coqStr(c[0]), coqStr(m)))
+				}
+			}
+			var cs []string
+			for c := range cf.calls {
+				cs = append(cs, strings.TrimSuffix(c, "?closure"))
+			}
+			sort.Strings(cs)
+			for _, c := range cs {
+				if p.funcs[c] != nil {
+					walk(c)
+					continue
+				}
+				// receiver type not resolved syntactically (a local variable): every method of that name, any type
+				if i := strings.LastIndex(c, "."); i >= 0 {
+					var ms []string
+					for n := range p.funcs {
+						if strings.HasSuffix(n, c[i:]) && !strings.Contains(n, "$") {
+							ms = append(ms, n)
+						}
+					}
+					sort.Strings(ms)
+					for _, m := range ms {
+						walk(m)
+					}
+				}
+			}
+		}
+		walk("PfcpServer.main")
+		sort.Strings(rows)
+	}
+	o.p("Definition loop_sends : list (string * string * string) := [\n%s\n].\n", strings.Join(rows, ";\n"))
+	o.p("(* every make(chan T, N): (function, target, capacity expression) *)")
+	rows = chanMakes(root, "internal/pfcp", files)
+	rows = append(rows, chanMakes(root, "internal/forwarder/perio", []string{"server.go"})...)
+	if len(rows) < 4 {
+		die("channel constructions not found (%d)", len(rows))
+	}
+	o.p("Definition chan_makes : list (string * string * string) := [\n%s\n].", strings.Join(rows, ";\n"))
 	writeIfChanged(filepath.Join(outdir, "ConcGen.v"), o.b.String())
+}
+
+// chanMakes lists every make(chan T, N) with the field / variable it initialises and its capacity expression
+func chanMakes(root, dir string, files []string) []string {
+	var rows []string
+	isMakeChan := func(e ast.Expr) (string, bool) {
+		c, ok := e.(*ast.CallExpr)
+		if !ok || len(c.Args) == 0 {
+			return "", false
+		}
+		if id, ok := c.Fun.(*ast.Ident); !ok || id.Name != "make" {
+			return "", false
+		}
+		if _, ok := c.Args[0].(*ast.ChanType); !ok {
+			return "", false
+		}
+		if len(c.Args) == 1 {
+			return "0", true
+		}
+		return exprString(c.Args[1]), true
+	}
+	for _, f := range files {
+		af := parse(root, filepath.Join(dir, f))
+		for _, d := range af.Decls {
+			fd, ok := d.(*ast.FuncDecl)
+			if !ok || fd.Body == nil {
+				continue
+			}
+			ast.Inspect(fd.Body, func(n ast.Node) bool {
+				switch x := n.(type) {
+				case *ast.KeyValueExpr:
+					if capx, ok := isMakeChan(x.Value); ok {
+						rows = append(rows, fmt.Sprintf("  (%s, %s, %s)", coqStr(fd.Name.Name), coqStr(exprString(x.Key)), coqStr(capx)))
+					}
+				case *ast.AssignStmt:
+					for i, r := range x.Rhs {
+						if capx, ok := isMakeChan(r); ok && i < len(x.Lhs) {
+							rows = append(rows, fmt.Sprintf("  (%s, %s, %s)", coqStr(fd.Name.Name), coqStr(exprString(x.Lhs[i])), coqStr(capx)))
+						}
+					}
+				}
+				return true
+			})
+		}
+	}
+	return rows
 }
 
 func init() { extraGenerators = append(extraGenerators, genConc, genPerioConc) }
